@@ -31,9 +31,14 @@ type markupImpl struct {
 	newFn   *ssa.Function // NewMarkup
 	cached  string
 	cachedW string
+	self    bool // Render wraps and caches the text itself
 }
 
-func markupImpls(P *Program) []*markupImpl {
+// markupImpls: the four renderers. A renderer whose Render does not hand the
+// work to a function of its package is not a broken check but a shape that the
+// rules cannot follow: it is reported as a violation of each of them.
+func markupImpls(c *Ctx) []*markupImpl {
+	P := c.P
 	var out []*markupImpl
 	for _, pk := range markupPkgs {
 		m := &markupImpl{pkg: pk}
@@ -47,7 +52,8 @@ func markupImpls(P *Program) []*markupImpl {
 			}
 		})
 		if m.inner == nil {
-			broken("%s.Markup.Render does not delegate to a render function of its package", pk)
+			// a renderer without a delegate: decided on the cache pair (c15self.go)
+			m.self = true
 		}
 		out = append(out, m)
 	}
@@ -74,7 +80,11 @@ func c15R1(c *Ctx) {
 	P := c.P
 	wrap := P.Func("servitor/ansi", "Wrap")
 	dumb := P.Func("servitor/ansi", "DumbWrap")
-	for _, m := range markupImpls(P) {
+	for _, m := range markupImpls(c) {
+		if m.self {
+			c15SelfR1(c, m)
+			continue
+		}
 		fn := m.inner
 		fname := FuncName(fn)
 		var width *ssa.Parameter
@@ -119,7 +129,11 @@ func c15R1(c *Ctx) {
 
 func c15R2(c *Ctx) {
 	P := c.P
-	for _, m := range markupImpls(P) {
+	for _, m := range markupImpls(c) {
+		if m.self {
+			c15SelfR2(c, m)
+			continue
+		}
 		r := m.render
 		rname := FuncName(r)
 		recv, width := r.Params[0], r.Params[1]
@@ -255,20 +269,28 @@ func c15R2(c *Ctx) {
 func c15R3(c *Ctx) {
 	P := c.P
 	E := NewEffects(P)
-	for _, m := range markupImpls(P) {
+	for _, m := range markupImpls(c) {
+		if m.self {
+			c15SelfR3(c, m, E)
+		}
 		fn := m.inner
+		if m.self {
+			fn = m.render
+		}
 		fname := FuncName(fn)
 		var bad []string
 		for r, pos := range E.Writes(fn) {
-			if r == "unknown" {
-				continue
+			if r == "unknown" || m.self {
+				continue // self-contained: the writes were judged above, the cache pair set aside
 			}
 			bad = append(bad, r+" (at "+pos+")")
 		}
 		sort.Strings(bad)
-		c.check(len(bad) == 0, fname+"/pure", P.Pos(fn.Pos()), fname,
-			"writes only memory it allocated itself (locals and the per-call link list)",
-			"rendering has side effects: it writes "+strings.Join(bad, "; ")+" — the text would depend on earlier renderings")
+		if !m.self {
+			c.check(len(bad) == 0, fname+"/pure", P.Pos(fn.Pos()), fname,
+				"writes only memory it allocated itself (locals and the per-call link list)",
+				"rendering has side effects: it writes "+strings.Join(bad, "; ")+" — the text would depend on earlier renderings")
+		}
 		// globals read transitively
 		reach := map[*ssa.Function]bool{fn: true}
 		work := []*ssa.Function{fn}
@@ -311,6 +333,9 @@ func c15R3(c *Ctx) {
 				}
 				if !isServitorPath(g.Pkg.Pkg.Path()) {
 					return
+				}
+				if effectivelyConstGlobal(P, g) {
+					return // a table that only the package initialiser writes
 				}
 				hidden = append(hidden, g.String()+" at "+P.InstrPos(in))
 			})
